@@ -168,6 +168,10 @@ where
         emit("pairing", vec![], json!({"a":a,"b":b}), dj(g));
     }
     emit("identity", vec![], json!({}), dj(&E::Gt::identity()));
+    // sums of no and of one element, by value and by reference
+    emit("sum0", vec![], json!({}), dj(&Vec::<E::Gt>::new().iter().sum::<E::Gt>()));
+    emit("sum0", vec![], json!({}), dj(&Vec::<E::Gt>::new().into_iter().sum::<E::Gt>()));
+    emit("sum1", vec![dj(&vals[1])], json!({}), dj(&[vals[1]].iter().sum::<E::Gt>()));
     for (i, x) in vals.iter().enumerate() {
         emit("neg", vec![dj(x)], json!({}), dj(&(-*x)));
         emit("double", vec![dj(x)], json!({}), dj(&x.double()));
